@@ -377,6 +377,10 @@ def prove_sorted(I, term):
         r = ctx.entails(z3.Implies(z3.And(m1.cond, m2.cond, i1 < i2), le))
     if r:
         term._sorted_proved = True
+        s = ctx.hc.get(("sorted", id(term)))
+        if s is not None and not any((a is s and b is term) for a, b in ctx.links):
+            # a Sorted(term) built earlier on this path is this very list
+            ctx.links.append((s, term))
     return r
 
 
@@ -493,15 +497,21 @@ def abstract_join(I, sep, seq):
     """sep.join(abstract list of strings): an uninterpreted function of (sep, list identity)."""
     if not isinstance(seq, AList):
         raise Unsupported("join of %r" % (seq,))
-    return JoinVal.make(I, sep, seq.term)
+    r = JoinVal.make(I, sep, seq.term)
+    # A4: joining stripped strings with a non-blank separator gives a stripped string
+    if isinstance(sep, str) and sep.strip() == sep and sep != "":
+        b, m = exists_in(I, seq.term, lambda e, i: I.strip_fn(to_z3(e)) != to_z3(e), "join-unstripped")
+        I.ctx.assume(z3.Implies(z3.Not(b), I.strip_fn(r) == r))
+    return r
 
 
 class JoinVal:
     @staticmethod
     def make(I, sep, term):
-        key = ("join", term.uid)
         f = z3.Function("join!" + term.uid, STR, STR)
-        return f(to_z3(sep))
+        v = f(to_z3(sep))
+        term.__dict__.setdefault("_joins", {})[to_z3(sep).sexpr()] = v
+        return v
 
 
 def stat_fn(I, fn, seq):
@@ -565,6 +575,9 @@ def segments(I, term):
         return out
     if isinstance(term, Conc):
         return [Seg("conc", items=term.items, term=term)] if term.items else []
+    if isinstance(term, Sorted) and prove_sorted(I, term.inner):
+        # facts learned since the sort make the input provably sorted: the stable sort was the identity
+        return segments(I, term.inner)
     if isinstance(term, FM):
         f = fuse(I, term)
         if isinstance(f, FM) and isinstance(f.src, Concat) and index_free(I, f):
@@ -625,12 +638,35 @@ def same_term(I, t1, t2):
     if t1 is t2:
         return True, None
     with I.ctx.scoped():
+        refresh_empty(I, t1, set())
+        refresh_empty(I, t2, set())
         ok, why = same_term_inner(I, t1, t2)
         if not ok and isinstance(why, tuple) and why[1] is not None:
             # keep a counter-model while the scope's witnesses are still alive
             model, status = I.registry_model(why[1]) if hasattr(I, "registry_model") else (None, None)
             why = (why[0], why[1], model, status)
     return ok, why
+
+
+def refresh_empty(I, term, seen):
+    """lemma: a filter none of whose elements can pass is the empty list (facts learned later on the path may
+    have made a filter built earlier degenerate)"""
+    if id(term) in seen:
+        return
+    seen.add(id(term))
+    ctx = I.ctx
+    for ch in ([term.inner] if hasattr(term, "inner") else []) + list(getattr(term, "parts", [])) + \
+            ([term.src] if hasattr(term, "src") else []):
+        if isinstance(ch, LTerm):
+            refresh_empty(I, ch, seen)
+    if isinstance(term, FM) and not term.is_map and not getattr(term, "_empty_known", False):
+        with ctx.scoped():
+            j = ctx.fresh_int("ej")
+            gm = term.src.any_member(j)
+            empty = ctx.entails(z3.Implies(gm.cond, term.count(j) == 0), quick=True)
+        if empty:
+            term._empty_known = True
+            ctx.assume(term.length() == 0)
 
 
 def same_term_inner(I, t1, t2):
